@@ -107,6 +107,26 @@ def swizzle_cases(tier):
                                             want_c[(i, lane)] = src if o_ in (None, '=') else _arith(sct, o_, old_, src)
                                     cs.append(R.Case('swizzle.%s<%s>.%s op=' % (form, vt.tag, nm), [kc],
                                                      label_ops(sel_judge('swizzle.%s<%s>.%s' % (form, vt.tag, nm), 'swizzle_write_ops', kc, arrw, want_c), [o[0] for o in ops])))
+    # swizzle proxies as operands (operator form): scalar - / * swizzle in both orders, swizzle (+ - * /) swizzle / vector in both orders:
+    # lane j of the result is  lhs_j OP rhs_j  with the proxy read through its name, operands in the order written
+    for T in (['float', 'int'] if tier == 'quick' else ['float', 'int', 'double', 'uint']):
+        sct = G.scalar(T)
+        for L_, nm, idx, nm2, idx2 in ((4, 'zyx', (2, 1, 0), 'xxw', (0, 0, 3)), (3, 'yx', (1, 0), 'zz', (2, 2)), (2, 'yx', (1, 0), 'xy', (0, 1)), (4, 'wzyx', (3, 2, 1, 0), 'yxwz', (1, 0, 3, 2)),
+                                       (4, 'abg', (3, 2, 1), 'rrg', (0, 0, 1)), (3, 'ps', (2, 0), 'tt', (1, 1))):
+            n = len(idx)
+            vt, ot = G.vec(L_, T, 'packed_highp'), G.vec(n, T, 'packed_highp')
+            forms = [('s%sswz' % o_, '*s %s v->%s' % (o_, nm), o_, 's', 'v') for o_ in '-*'] + [('swz%ss' % o_, 'v->%s %s *s' % (nm, o_), o_, 'v', 's') for o_ in '-*']
+            forms += [('swz%sswz' % o_, 'v->%s %s u->%s' % (nm, o_, nm2), o_, 'v', 'u') for o_ in '+-*/']
+            forms += [('swz%svec' % o_, 'v->%s %s *w' % (nm, o_), o_, 'v', 'w') for o_ in '+-*/'] + [('vec%sswz' % o_, '*w %s v->%s' % (o_, nm), o_, 'w', 'v') for o_ in '+-*/']
+            arrx = G.Ty('arr', ot.cpp, ot.elem, ot.size * len(forms), {(i, j): i * ot.size + ot.lanes[j] for i in range(len(forms)) for j in range(n)}, T, (len(forms), n))
+            body = ' '.join('o[%d] = %s;' % (i, f[1]) for i, f in enumerate(forms))
+            kx = K('swzexpr_%s_%s_%s' % (vt.tag, nm, sct.tag), [Par('o', arrx, False), Par('v', vt), Par('u', vt), Par('w', ot), Par('s', sct)], body, CFG_OP)
+
+            def operand(which, j, vt=vt, ot=ot, sct=sct, idx=idx, idx2=idx2):
+                return {'s': lambda: L.in_term('s', sct, 0), 'v': lambda: L.in_term('v', vt, idx[j]), 'u': lambda: L.in_term('u', vt, idx2[j]), 'w': lambda: L.in_term('w', ot, j)}[which]()
+            want_x = {(i, j): _arith(sct, f[2], operand(f[3], j), operand(f[4], j)) for i, f in enumerate(forms) for j in range(n)}
+            cs.append(R.Case('swizzle.expr<%s>.%s' % (vt.tag, nm), [kx],
+                             label_ops(sel_judge('swizzle.expr<%s>.%s' % (vt.tag, nm), 'swizzle_expr', kx, arrx, want_x), [f[0] for f in forms])))
     # SIMD shuffle specialisations: aligned vec4 float / int (and double under AVX in thorough)
     simd = [(CFG_OP, 'sse2', ['float', 'int'])]
     if tier == 'thorough':
